@@ -66,7 +66,8 @@ mutual
 /-- no shorthand-class tokens, a non-empty count range, nested repetitions that expand to the unit -/
 def GSem : Grapheme → Prop
   | .mk chars reps mn mx =>
-    (∀ s ∈ chars, ∀ a ∈ tokens s, ∃ c, a = Atom.chr c) ∧ mn ≤ mx ∧ (reps = [] ∨ (expandAll reps = chars ∧ GSemL reps))
+    (∀ s ∈ chars, ∀ a ∈ tokens s, ∃ c, a = Atom.chr c) ∧ mn ≤ mx ∧
+    (reps = [] ∨ (expandAll reps = chars ∧ GSemL reps ∧ ∀ r ∈ reps, r.min = r.max))
 def GSemL : List Grapheme → Prop
   | [] => True
   | g :: gs => GSem g ∧ GSemL gs
@@ -191,7 +192,7 @@ theorem gSound (cap : Bool) : (g : Grapheme) → GOK g → GSem g → ∀ k, g.m
       simp only [Pat.denC, rangeL]
       refine ⟨k, hk1, by omega, ?_⟩
       apply powL_replicate
-      rcases hnest with h0 | ⟨hexp, hsl⟩
+      rcases hnest with h0 | ⟨hexp, hsl, _⟩
       · exact absurd h0 hr
       · rw [denC_catList, ← hexp]
         exact gSoundL cap reps hl hsl
